@@ -1,6 +1,7 @@
 import CandidModel.Driver.Leb
 import CandidModel.Driver.Principal
 import CandidModel.Driver.Subtype
+import CandidModel.Driver.Wire
 /-
   Line-protocol driver.  One request per line: `<op>\t<arg>\t<arg>…`; one answer per line:
   `<model answer>\t<spec answer>` (or `bad-op` for what no handler accepts — never a default).
@@ -8,7 +9,7 @@ import CandidModel.Driver.Subtype
 open Candid Candid.Driver
 
 def handlers : List (String → List String → Option String) :=
-  [handleLeb, handlePrincipal, handleSubtype]
+  [handleLeb, handlePrincipal, handleSubtype, handleWire]
 
 def answer (line : String) : String :=
   match line.splitOn "\t" with
